@@ -241,7 +241,7 @@ def _block_shaped(p: int, t: str) -> bool:
 
 CONDITIONS = [
     Cond(
-        name="block_shaped", fn=_block_shaped, quick=150, thorough=900, per_path=30, shards_quick=len(BLOCK_SHAPES), shards_thorough=len(BLOCK_SHAPES),
+        name="block_shaped", fn=_block_shaped, quick=300, thorough=900, per_path=30, shards_quick=len(BLOCK_SHAPES), shards_thorough=len(BLOCK_SHAPES),
         bound="raw block-string content prefix + t + suffix for %d multi-line layouts (indented text lines around the symbolic part, CRLF/CR breaks, tabs, leading/trailing blank lines) with symbolic t of <= 2 (thorough 3) characters" % len(BLOCK_SHAPES),
         symbolic={"p": "choice: layout", "t": "data: symbolic middle"}, assumptions=["oracle: BlockStringValue()"], witness={"p": 0, "t": " "},
     ),
